@@ -59,9 +59,9 @@ func init() {
 
 func c12Sizes(t core.Tier) (n, perms, fresh int) {
 	if t == core.Thorough {
-		return 6000, 8, 60
+		return 6000, 8, 150
 	}
-	return 1500, 6, 6
+	return 1500, 6, 16
 }
 
 func parentC12(p *core.ParentCtx) *core.Result {
@@ -290,8 +290,17 @@ func runC12(c *core.Ctx) {
 
 	// sample for the fresh-process comparison
 	want := map[string]string{}
+	// state that sticks to whatever came first is identical in every pass of this process; only a
+	// fresh process shows it. Three quarters of the sample are calls that supply rules or functions
+	// of their own (they are the ones that differ from what a type's first call established).
 	for k := 0; k < fresh; k++ {
 		i := rng.Intn(len(specs))
+		for tries := 0; tries < 50 && k%4 != 0; tries++ {
+			if kd := specs[i].Kind; kd == "StructForFn" || kd == "StructForFns" || kd == "NestedStructForRule" {
+				break
+			}
+			i = rng.Intn(len(specs))
+		}
 		want[strconv.Itoa(i)] = results[i]
 	}
 	b, _ := json.Marshal(want)
